@@ -275,7 +275,7 @@ def live_writes(db: DB, entries, flag: str, value: bool, fields: Set[str]) -> Di
   return out, total
 
 
-def check_sibling_gating(res, db: DB, entries, pairs, members) -> int:
+def check_sibling_gating(res, db: DB, entries, pairs, members, rule="R-FLAGS.3", why=None) -> int:
   """R-FLAGS.3: for each (derivative kernel, force kernel) pair and every assignment of `members` (DisableBit names),
   if every launch of the force kernel is unreachable under the assignment, every launch of its velocity-derivative
   sibling must be unreachable too (the implicit integrators must not add the derivative of a force that is off)."""
@@ -308,9 +308,9 @@ def check_sibling_gating(res, db: DB, entries, pairs, members) -> int:
         not live,
         f"{dk}|{fk}|{setbits}",
         Finding(
-          "R-FLAGS.3",
+          rule,
           f"{dk}|{fk}|{setbits}",
-          f"with {setbits} disabled no launch of {fk} is reachable, but its velocity derivative {dk} is still launched: the implicit integrators add the derivative of a force that is switched off",
+          (why or "with {setbits} disabled no launch of {fk} is reachable, but its velocity derivative {dk} is still launched: the implicit integrators add the derivative of a force that is switched off").format(setbits=setbits, fk=fk, dk=dk),
           live[0] if live else "",
         ),
         sample={"derivative": dk, "force": fk, "disabled": setbits},
